@@ -470,9 +470,12 @@ class MergeSortView(Table):
         if presorted:
             self.tables = tables
         else:
-            self.tables = [sort(t, key=key, reverse=reverse,
-                                buffersize=buffersize, tempdir=tempdir,
-                                cache=cache)
+            # N.B., short rows are padded with `missing` before sorting, so
+            # that each input is sorted by the same key values that the merge
+            # will see (as when sorting the output of cat())
+            self.tables = [sort(_PadView(t, missing), key=key,
+                                reverse=reverse, buffersize=buffersize,
+                                tempdir=tempdir, cache=cache)
                            for t in tables]
         self.missing = missing
         self.header = header
@@ -481,6 +484,28 @@ class MergeSortView(Table):
     def __iter__(self):
         return itermergesort(self.tables, self.key, self.header, self.missing,
                              self.reverse)
+
+
+class _PadView(Table):
+    """Rows of `table` with short rows padded out to the header's length."""
+
+    def __init__(self, table, missing=None):
+        self.table = table
+        self.missing = missing
+
+    def __iter__(self):
+        it = iter(self.table)
+        try:
+            hdr = next(it)
+        except StopIteration:
+            return
+        yield hdr
+        n = len(hdr)
+        for row in it:
+            row = tuple(row)
+            if len(row) < n:
+                row += (self.missing,) * (n - len(row))
+            yield row
 
 
 def itermergesort(sources, key, header, missing, reverse):
